@@ -162,9 +162,29 @@ def run_go_part(prop, part, tier, seed, builddir, reportdir):
     t0 = time.time()
     with open(logp, "w") as lf:
         try:
-            p = subprocess.run(cmd, cwd=REPO, env=go_env(extra), stdout=lf,
-                               stderr=subprocess.STDOUT, timeout=tmo + 120)
-            rc = p.returncode
+            if part.get("compile_then_run"):
+                # Overlay-only packages have no directory to chdir into, so
+                # the test binary is compiled first and run from the scratch
+                # directory.
+                tb = os.path.join(builddir, "%s.%s.test" % (prop, part["name"]))
+                ccmd = [c for c in cmd if not c.startswith("-timeout") and not c.startswith("-count")]
+                ti = cmd.index("-timeout")
+                ccmd = cmd[:2] + ["-c", "-o", tb] + [c for i, c in enumerate(cmd[2:], 2)
+                                                     if i not in (ti, ti + 1) and c != "-count=1"
+                                                     and i not in (cmd.index("-run"), cmd.index("-run") + 1)]
+                p = subprocess.run(ccmd, cwd=REPO, env=go_env(extra), stdout=lf, stderr=subprocess.STDOUT)
+                rc = p.returncode
+                if rc != 0:
+                    lf.write("\n[build failed]\n")
+                else:
+                    p = subprocess.run([tb, "-test.run", part["run"], "-test.timeout", "%ds" % tmo, "-test.count=1"],
+                                       cwd=builddir, env=go_env(extra), stdout=lf,
+                                       stderr=subprocess.STDOUT, timeout=tmo + 120)
+                    rc = p.returncode
+            else:
+                p = subprocess.run(cmd, cwd=REPO, env=go_env(extra), stdout=lf,
+                                   stderr=subprocess.STDOUT, timeout=tmo + 120)
+                rc = p.returncode
         except subprocess.TimeoutExpired:
             rc = -9
     res.log = open(logp, errors="replace").read()
